@@ -1,8 +1,10 @@
 package run
 
 import (
+	"verif/sim/core"
 	"verif/sim/sa"
 	"verif/sim/sc"
+	"verif/sim/tape"
 )
 
 func init() {
@@ -28,8 +30,13 @@ func init() {
 		Assumptions: []string{"with noise on, only histories of completed analyses are compared (how many evaluations a halted search consumes is schedule-dependent by nature)", "data races on shared evaluator state are the -race tier's business"},
 		Run:         sa.SessionC18})
 	register(&Spec{Prop: "C17", RaceTier: true, QuickRuns: 6000, Level: "exploration", NeedsBubble: true, CrashIsViolation: true,
-		Rule: "one run = 2..5 simulated clients with 2..8 tape-drawn Read/Write calls each (unique payload per store) on one real table of 1, 2 or 4 slots and 2..5 hashes (several per slot); clients park before each call and at the table's hook points (after the load in Read, before each rank test and after a successful CAS in Write) and the seeded scheduler decides who advances. The recorded history (stamped with a global event counter) is checked with porcupine, partitioned by slot, against a one-slot model whose replacement relation was learned from the real table's sequential behaviour; every hit must return a tuple one single store wrote; Used() in [0,1] at every quiescent point and equal to the number of occupied slots at the end. A free-running -race tier runs the same kind of workload with real goroutines (runtime monitoring, not replayable). Non-trivial = at least 6 operations; distinct = hash of the (task, point) sequence",
-		Real: []string{"pkg/search transposition table (Read, Write, Used, val)"}, Stub: []string{"clients are simulator tasks; no search runs in the scheduled tier"},
+		Rule: "one run = 2..5 simulated clients with 2..8 tape-drawn Read/Write calls each (unique payload per store) on one real table of 1, 2 or 4 slots and 2..5 hashes (several per slot); clients park before each call and at the table's hook points (after the load in Read, before each rank test and after a successful CAS in Write) and the seeded scheduler decides who advances. The recorded history (stamped with a global event counter) is checked with porcupine, partitioned by slot, against a one-slot model whose replacement relation was learned from the real table's sequential behaviour; every hit must return a tuple one single store wrote; Used() in [0,1] at every quiescent point and equal to the number of occupied slots at the end. One run in six is an engine-level session instead (real engines with the table on, one Zobrist seed, inside the same kind of bubble as C18's): after earlier completed or client-halted analyses and an Engine.Reset, each iteration of a completed analysis must report exactly the fill fraction the same analysis reports on a fresh engine, and every reported fraction lies in [0,1]. A free-running -race tier runs the same kind of workload with real goroutines (runtime monitoring, not replayable). Non-trivial = at least 6 operations; distinct = hash of the (task, point) sequence",
+		Real: []string{"pkg/search transposition table (Read, Write, Used, val)", "engine-level sessions: pkg/engine (Reset, Move, Analyze, Halt), searchctl.Iterative, pkg/search AlphaBeta with the real table"}, Stub: []string{"clients are simulator tasks; no search runs in the table-level sessions", "engine-level sessions: harness-supplied evaluator behind the gate (as in C18)"},
 		Assumptions: []string{"linearizability is judged against the table's own sequential behaviour (a change of replacement policy is not a violation)", "porcupine Unknown (timeout) is counted as inconclusive", "data races are decided only by the -race tier"},
-		Run:         sc.Session})
+		Run: func(t *tape.Tape) *core.RunResult {
+			if t.Chance(1, 6) {
+				return sa.SessionC17Engine(t)
+			}
+			return sc.Session(t)
+		}})
 }
